@@ -86,6 +86,9 @@ type SplitSpec struct {
 	Expr   *Clause
 	Lo, Hi int64
 	Quick  []int64
+	// Thorough, when given, lists the value ranges run in the thorough tier; the cases
+	// outside it are run in no tier (the split is then incomplete, and reported as such)
+	Thorough [][2]int64
 }
 
 type Lemma struct {
@@ -119,7 +122,7 @@ func newContractSet() *ContractSet {
 }
 
 var (
-	reSplit     = regexp.MustCompile(`^(.*)\s+in\s+(-?\d+)\.\.(-?\d+)(?:\s+quick\s+([-\d,\s]+))?$`)
+	reSplit     = regexp.MustCompile(`^(.*)\s+in\s+(-?\d+)\.\.(-?\d+)(?:\s+quick\s+([-\d,\s]+?))?(?:\s+thorough\s+([-\d,.\s]+))?$`)
 	reFuncHdr   = regexp.MustCompile(`^func\s+(?:\(\s*(?:\w+\s+)?\*?([\w./]+)\s*\)\s*\.?\s*)?([\w.]+)(?:\[[^\]]*\])?\s*$`)
 	reExternHdr = regexp.MustCompile(`^extern\s+func\s+(?:\(\s*\*?([\w./\-]+)\s*\)\s*\.\s*)?([\w./\-]+)\s*$`)
 	reSpecHdr   = regexp.MustCompile(`^spec\s+func\s+(\w+)\s*\(([^)]*)\)\s*([\w\[\]*.]+)\s*=\s*(.*)$`)
@@ -359,10 +362,10 @@ func (cs *ContractSet) loadContractFile(path, defaultPkg string) error {
 			cur.Ensures = append(cur.Ensures, mk(rest))
 			lastClause = &cur.Ensures[len(cur.Ensures)-1]
 		case "split":
-			// split <expr> in lo..hi [quick a,b,c]
+			// split <expr> in lo..hi [quick a,b,c] [thorough a..b,c]
 			m := reSplit.FindStringSubmatch(rest)
 			if m == nil {
-				return fmt.Errorf("%s:%d: expected `split <expr> in <lo>..<hi> [quick v,...]`", path, ln)
+				return fmt.Errorf("%s:%d: expected `split <expr> in <lo>..<hi> [quick v,...] [thorough a..b,...]`", path, ln)
 			}
 			lo, _ := strconv.ParseInt(m[2], 10, 64)
 			hi, _ := strconv.ParseInt(m[3], 10, 64)
@@ -374,6 +377,22 @@ func (cs *ContractSet) loadContractFile(path, defaultPkg string) error {
 						return fmt.Errorf("%s:%d: bad quick value %q", path, ln, q)
 					}
 					sp.Quick = append(sp.Quick, v)
+				}
+			}
+			for _, q := range strings.Split(m[5], ",") {
+				if q = strings.TrimSpace(q); q != "" {
+					var a, b int64
+					if i := strings.Index(q, ".."); i > 0 {
+						a, _ = strconv.ParseInt(strings.TrimSpace(q[:i]), 10, 64)
+						b, _ = strconv.ParseInt(strings.TrimSpace(q[i+2:]), 10, 64)
+					} else {
+						v, err := strconv.ParseInt(q, 10, 64)
+						if err != nil {
+							return fmt.Errorf("%s:%d: bad thorough value %q", path, ln, q)
+						}
+						a, b = v, v
+					}
+					sp.Thorough = append(sp.Thorough, [2]int64{a, b})
 				}
 			}
 			cur.Splits = append(cur.Splits, sp)
